@@ -154,7 +154,7 @@ fn nd_blocks(content: &[u8], shape: usize, modes: usize) -> Vec<(Vec<u8>, NMode)
     out
 }
 
-//@unit props=C02 label=B tier=quick native=1 fn=sqpack::data::SqPackData::{read_from_offset,read_standard_file,read_texture_file,read_model_file},sqpack::read_data_block,compression::no_header_decompress bound="by execution on temporary dat files: standard entries of 9 lengths (0..40000) x 4 block splits x 4 raw/deflate assignments (stored and fixed-Huffman streams); texture entries with 1..3 mips of 1..4 unevenly sized blocks; model entries with 1..3 LODs and 0..3 blocks per section; entry offsets 0, 128, 0x800"
+//@unit props=C02 label=B tier=quick native=1 fn=sqpack::data::SqPackData::{read_from_offset,read_standard_file,read_texture_file,read_model_file},sqpack::read_data_block,compression::no_header_decompress bound="by execution on temporary dat files: standard entries of 9 lengths (0..40000) x 4 block splits x 4 raw/deflate assignments (stored and fixed-Huffman streams); texture entries with 1..3 mips of 1..4 unevenly sized blocks; model entries with 1..3 LODs and 0..3 blocks per section, incl. LODs with indices but no vertices, vertices but no indices, and an empty middle LOD; entry offsets 0, 128, 0x800"
 //@desc extraction returns exactly the packed bytes: a standard entry the concatenation of its blocks; a texture entry its header followed by every mip block in order; a model entry the synthesized 0x44-byte header (version, stack/runtime sizes, counts, per-LOD vertex/index offsets and sizes describing the reassembled sections) followed by the stack, runtime, vertex and index sections; however the content is split and whether each block is raw or deflated
 #[test]
 fn native_sqpack_reassembly() {
@@ -188,6 +188,18 @@ fn native_sqpack_reassembly() {
         assert!(got == expect, "model entry ({lods} LODs, shape {shape}): sections differ ({} vs {} bytes)", got.len(), expect.len());
         cases += 1;
     } }
+    // LODs that store indices but no vertices, vertices but no indices, and a gap (LOD 1 empty, LOD 2 present)
+    for shape in 0..4usize {
+        let sec = |n: usize, s: u32| nd_blocks(&nd_pattern(n, s), (shape + s as usize) % 4, shape + s as usize);
+        let none: Vec<(Vec<u8>, NMode)> = vec![];
+        for (vi, (vertex, index)) in [([sec(400, 1), none.clone(), sec(90, 3)], [sec(120, 4), sec(66, 5), sec(30, 6)]), ([sec(400, 1), sec(200, 2), none.clone()], [sec(120, 4), none.clone(), sec(30, 6)]), ([sec(400, 1), none.clone(), sec(90, 3)], [sec(120, 4), none.clone(), sec(30, 6)])].into_iter().enumerate() {
+            let (entry, expect) = nd_model(&sec(300, 7), &sec(500 + shape * 100, 8), &vertex, &index, 3);
+            let got = nd_extract(&entry, 128, "mdl2").expect("model entry extracts");
+            assert!(got[..0x44] == expect[..0x44], "model entry with partial LODs (variant {vi}, shape {shape}): synthesized header {:02x?} != {:02x?}", &got[..0x44], &expect[..0x44]);
+            assert!(got == expect, "model entry with partial LODs (variant {vi}, shape {shape}): sections differ ({} vs {} bytes)", got.len(), expect.len());
+            cases += 1;
+        }
+    }
     println!("NATIVE native_sqpack_reassembly cases={cases}");
 }
 
